@@ -34,8 +34,13 @@ def canon(r):
     return ["other", repr(r)[:200]]
 
 
+_COORDS = ["distinct"]
+
+
 def _pts(nv):
     import mouette as M
+    if _COORDS[0] == "zero":      # degenerate geometry, valid combinatorics: every vertex at the origin
+        return [M.Vec(0., 0., 0.) for i in range(nv)]
     return [M.Vec(float(i % 7), float(i // 7), float((i * i) % 5)) for i in range(nv)]
 
 
@@ -48,7 +53,7 @@ def _base(nv, faces, conv=list):
 
 
 ROUTES = ["list", "tuple", "numpy", "from_arrays", "obj", "medit", "geogram", "rewrap", "triangulate", "loop", "copy",
-          "copy_conn", "merge"]
+          "copy_conn", "merge", "edges_explicit"]
 SAME_FACES = {"list", "tuple", "numpy", "from_arrays", "obj", "geogram", "rewrap", "copy", "copy_conn"}
 
 
@@ -98,16 +103,77 @@ def build_route(case):
         b.connectivity.vertex_to_vertices(0)
         b.interior_edges
         return M.mesh.copy(b, copy_attributes=True, copy_connectivity=True), route
+    if route == "edges_explicit":
+        # (part of) the edges declared by the caller, in arbitrary order and orientation (big, small); the rest is completed
+        import random
+        rr = random.Random(case.get("script_seed", 0) + 7)
+        und = sorted({tuple(sorted((F[i], F[(i + 1) % len(F)]))) for F in faces for i in range(len(F))})
+        rr.shuffle(und)
+        und = und[:rr.randint(1, len(und))]
+        d = M.mesh.RawMeshData()
+        d.vertices += _pts(nv)
+        d.edges += [(b, a) if rr.random() < 0.5 else (a, b) for a, b in und]
+        d.faces += [list(F) for F in faces]
+        return M.mesh.SurfaceMesh(d), route
     if route == "merge":
         return M.mesh.merge([_base(nv, faces), _base(4, [[0, 1, 2], [0, 2, 3]])]), route
     return _base(nv, faces), "list"
 
 
+DECOY_FACES = [[0, 1, 2], [0, 2, 3]]
+
+
+def decoy_obs(dm):
+    """a second mesh living in the same session: its answers must never move"""
+    c = dm.connectivity
+    return [canon(c.half_edge_to_corner(0, 1)), canon(sorted(c.vertex_to_corners(0))), canon(list(dm.boundary_edges)),
+            canon(c.opposite_corner(2)), canon(sorted(dm.interior_vertices))]
+
+
+def call_query(m, cn, name, args, form, conv):
+    """one public call, in one of the accepted call forms, ids given in the numeric representation `conv`"""
+    a = [conv(x) for x in args]
+    if name == "direct_face":
+        return [lambda: cn.direct_face(a[0], a[1]), lambda: cn.direct_face(a[0], a[1], False),
+                lambda: cn.direct_face(a[0], a[1], return_inds=False), lambda: cn.direct_face(u=a[0], v=a[1])][form % 4]()
+    if name == "direct_face_inds":
+        return [lambda: cn.direct_face(a[0], a[1], True), lambda: cn.direct_face(a[0], a[1], return_inds=True),
+                lambda: cn.direct_face(a[0], a[1], 1)][form % 3]()
+    if name == "opposite_face":
+        return [lambda: cn.opposite_face(a[0], a[1], a[2]), lambda: cn.opposite_face(a[0], a[1], a[2], False),
+                lambda: cn.opposite_face(a[0], a[1], F=a[2], return_inds=False)][form % 3]()
+    if name == "opposite_face_inds":
+        return [lambda: cn.opposite_face(a[0], a[1], a[2], True), lambda: cn.opposite_face(a[0], a[1], a[2], return_inds=True)][form % 2]()
+    if name == "face_id":
+        return [lambda: cn.face_id(*a), lambda: cn.face_id(tuple(a)), lambda: cn.face_id(list(a)), lambda: cn.face_id(iter(a))][form % 4]()
+    if name in ("boundary_edges", "interior_edges", "boundary_vertices", "interior_vertices"):
+        return list(getattr(m, name))   # a copy: later queries must not change what was observed now
+    if name in ("is_edge_on_border", "is_vertex_on_border"):
+        return getattr(m, name)(*a)
+    if name == "clear_boundary_data":
+        return m.clear_boundary_data()
+    return getattr(cn, name)(*a)
+
+
+# accessors that hand out a fresh list: the caller may do what it likes with it
+FRESH = {"vertex_to_faces", "vertex_to_edges", "face_to_vertices", "face_to_edges", "face_to_corners", "face_to_faces",
+         "direct_face_inds"}
+
+
 def run_case(case):
     import random
+    import numpy as np
     import mouette as M
     from vf.impl import c01_meshgen as G
     M.config.sort_neighborhoods = bool(case["sort"])
+    M.config.display_duplicate_attribute_warning = bool(case.get("dupwarn", False))
+    import warnings
+    warnings.simplefilter("ignore")
+    _COORDS[0] = case.get("coords", "distinct")
+    decoy = None
+    if case.get("decoy"):
+        decoy = _base(4, DECOY_FACES)
+        decoy0 = decoy_obs(decoy)
     m, used = build_route(case)
     if type(m).__name__ != "SurfaceMesh":
         return {"crash": "route %s produced a %s" % (used, type(m).__name__)}
@@ -124,26 +190,32 @@ def run_case(case):
     if script is None:
         script = G.gen_script(random.Random(case.get("script_seed", 0)), {"nv": nv2, "faces": faces2})
     cn = m.connectivity
+    # a vertex attribute whose name collides with the one the border computation uses, holding arbitrary values
+    if case.get("collide"):
+        m.vertices.delete_attribute("border")    # (an earlier mesh of the route may have left its own there)
+    if case.get("collide") == "bool":
+        a_ = m.vertices.create_attribute("border", bool)
+        for i in range(nv2):
+            a_[i] = True
+    elif case.get("collide") == "float":
+        a_ = m.vertices.create_attribute("border", float)
+        for i in range(0, nv2, 2):
+            a_[i] = 2.5
+    conv = {"int": int, "np64": np.int64, "np32": np.int32}[case.get("argtype", "int")]
+    fr = random.Random(case.get("script_seed", 0) + 3)
     obs = []
-    for q in script:
+    decoy_log = []
+    for k, q in enumerate(script):
         name, args = q[0], q[1:]
+        if decoy is not None and k in (len(script) // 3, 2 * len(script) // 3):
+            decoy_log.append(decoy_obs(decoy))
         try:
-            if name == "direct_face_inds":
-                r = cn.direct_face(args[0], args[1], True)
-            elif name == "opposite_face_inds":
-                r = cn.opposite_face(args[0], args[1], args[2], True)
-            elif name in ("boundary_edges", "interior_edges", "boundary_vertices", "interior_vertices"):
-                r = getattr(m, name)
-                r = list(r)  # a copy: later queries must not change what was observed now
-            elif name in ("is_edge_on_border", "is_vertex_on_border"):
-                r = getattr(m, name)(*args)
-            elif name == "clear_boundary_data":
-                r = m.clear_boundary_data()
-            else:
-                r = getattr(cn, name)(*args)
-                if isinstance(r, list):
-                    r = list(r)
-            obs.append(canon(r))
+            r = call_query(m, cn, name, args, fr.randrange(12), conv)
+            o = canon(r)
+            if name in FRESH and isinstance(r, list):
+                r.reverse()          # the caller owns what these accessors return
+                r.append(-7)
+            obs.append(o)
         except RecursionError:
             obs.append(["err", "RecursionError"])
         except Exception as ex:  # the class name is the observation
@@ -157,7 +229,10 @@ def run_case(case):
                           canon(list(cn.vertex_to_faces(V))), canon(list(cn.vertex_to_edges(V)))])
     except Exception as ex:
         rings = [["err", type(ex).__name__]]
-    res = {"rings": rings, "edges": [[int(a), int(b)] for a, b in m.edges],
+    if decoy is not None:
+        decoy_log.append(decoy_obs(decoy))
+    M.config.display_duplicate_attribute_warning = False
+    res = {"decoy": None if decoy is None else [decoy0] + decoy_log, "rings": rings, "edges": [[int(a), int(b)] for a, b in m.edges],
            "corner_elem": [int(m.face_corners.element(i)) for i in range(len(m.face_corners))],
            "corner_adj": [int(m.face_corners.adj(i)) for i in range(len(m.face_corners))],
            "nv": nv2, "faces": faces2, "script": script, "route": used, "note": note,
